@@ -454,6 +454,7 @@ pub fn run_clone(dir: &Path, b: &Built, sc: &Scenario, tag: &str, faults: &Fault
     let spec = clone_spec(b, sc, archive);
     let mut run = Run::new(dir, tag, scn::clone_args(&spec));
     run.watch = vec![b.out_path.clone(), b.arch.path.clone()];
+    run.log_reads = true;
     if let Some(s) = &b.stdin_seed {
         run.stdin = Some((s.clone(), sc.src_seed | 1));
     }
